@@ -8,7 +8,7 @@
 (* behaviour one REPLAY line (stimulus + expected observations) is printed *)
 (* for the Rust harness (leg B).                                           *)
 (***************************************************************************)
-EXTENDS XmlLex, TLC, Json
+EXTENDS XmlLex, Alphabet, TLC, Json
 
 CONSTANTS K,          \* max number of fragments
           CfgMode,    \* "neutral" | "default" | "cover" | "all"
@@ -16,42 +16,8 @@ CONSTANTS K,          \* max number of fragments
           Emit,       \* TRUE: print REPLAY lines
           KnownDevs   \* deviations of known findings (for the `alt` expectation)
 
-FragsBytes == { <<0>>, <<128>>, <<255>>, <<97>>, <<60>>, <<62>>, <<33>>, <<63>>, <<47>>, <<45>>,
-                <<91>>, <<93>>, <<34>>, <<39>>, <<32>>, <<68>>, <<61>> }
-FragsMarkup == { <<60>>, <<62>>, <<47>>, <<63>>, <<33>>, <<45>>, <<45, 45>>,
-           <<91, 67, 68, 65, 84, 65, 91>>, <<93>>, <<93, 93>>,
-           <<68, 79, 67, 84, 89, 80, 69>>, <<100>>, <<120, 109, 108>>, <<32>>,
-           <<97>>, <<98>>, <<34>>, <<39>>, <<61>>, <<195, 169>> }
-
-Seeds == { <<60,33,45,45,45,62,45,45,62>>,                         \* <!--->-->
-           <<60,33,91,67,68,65,84,65,91,93,93,93,93,62>>,          \* <![CDATA[]]]]>
-           <<60,97,32,98,61,39,34,62,39,62>>,                      \* <a b='">'>
-           <<60,63,63,62>>, <<60,63,62,120>>,                      \* <??>  <?>x
-           <<60,33,68,79,67,84,89,80,69,32,97,32,91,60,33,69,32,120,32,34,62,34,62,93,62>>,
-           <<60,33,100,111,99,116,121,112,101,62>>,                \* <!doctype>
-           <<60,97,62,32,60,47,97,32,62,32,32,60,98,47,62,32>>,    \* <a> </a >  <b/>_
-           <<60,63,120,109,108,32,118,63,62,60,63,120,109,108,120,63,62>>,
-           <<60,33,45,45,97,45,45,45,62>>, <<60,33,45,45,45,45,97,45,45,62>>,
-           <<60,97,47,62,60,47,97,62,60,47,98,62>>,
-           <<239,187,191,60,97,62>> }
-
-Frags == IF FragMode = "bytes" THEN FragsBytes ELSE FragsMarkup
-
-RECURSIVE Strs(_)
-Strs(n) == IF n = 0 THEN {<<>>} ELSE LET S == Strs(n - 1) IN S \cup {x \o f : x \in S, f \in Frags}
-Inputs == Strs(K) \cup Seeds
-
-Bit(c, key) == IF c[key] THEN 1 ELSE 0
-\* 8 rows covering every pair of switch values at least once, plus defaults
-CoverRows == { <<0,0,0,0,0,0,0>>, <<1,1,1,1,1,1,1>>, <<0,1,0,1,0,1,0>>, <<1,0,1,0,1,0,1>>,
-               <<0,0,1,1,0,0,1>>, <<1,1,0,0,1,1,0>>, <<0,1,1,0,1,0,0>>, <<1,0,0,1,0,1,1>>,
-               <<0,0,1,0,1,0,0>> }
-OfRow(r) == [aue |-> r[1] = 1, cc |-> r[2] = 1, cen |-> r[3] = 1, eee |-> r[4] = 1,
-             tmn |-> r[5] = 1, tts |-> r[6] = 1, tte |-> r[7] = 1]
-Cfgs == CASE CfgMode = "neutral" -> {NeutralCfg}
-          [] CfgMode = "default" -> {DefaultCfg}
-          [] CfgMode = "cover" -> {OfRow(r) : r \in CoverRows}
-          [] OTHER -> AllCfgs
+Inputs == InputsOf(FragMode, K)
+Cfgs == CfgsOf(CfgMode)
 
 VARIABLES raw, inp, cfg, st, k, eofs, last, ppos, ref
 vars == <<raw, inp, cfg, st, k, eofs, last, ppos, ref>>
